@@ -25,7 +25,7 @@ def canon(line):
     return " | ".join([head + (" " + raw_ops if raw_ops else "")] + segs)
 
 
-def run_walks(seed, tier, label, n_quick, n_thorough, adversarial=False, strict=False, length=80, snap_after_svc=False):
+def run_walks(seed, tier, label, n_quick, n_thorough, adversarial=False, strict=False, length=80, snap_after_svc=False, replay_model=True):
     rng = Rng(seed, "walks:" + label)
     n = n_quick if tier == "quick" else n_thorough
     h = Proc([HARNESS_BIN], "harness")
@@ -34,11 +34,17 @@ def run_walks(seed, tier, label, n_quick, n_thorough, adversarial=False, strict=
         for i in range(n):
             h.ask("session.reset")
             w = Walk(Rng(seed, f"walk:{label}:{i}"), h, adversarial=adversarial or (i % 3 == 2), strict_driver=strict,
-                     length=rng.choice([40, length, length * 2, length * 4]), snap_after_svc=snap_after_svc or (i % 4 == 1))
+                     length=rng.choice([40, length, length * 2, length * 4]), snap_after_svc=snap_after_svc or (i % 4 == 1),
+                     profile="backlog" if i % 5 == 3 else "default")
             w.run()
             walks.append(w)
     finally:
         h.close()
+    if not replay_model:
+        for w in walks:
+            w.model = []
+            w.first_diff = None
+        return walks
     # model replay, all walks in one batch
     reqs = []
     for w in walks:
@@ -86,7 +92,7 @@ def correspondence(report, walks, prop, label="corr:engine"):
     return ok
 
 
-def monitor(report, walks, prop, digests=None):
+def monitor(report, walks, prop, digests=None, label=None):
     """run the property's monitor over every walk; findings carry the script prefix as replay"""
     import monitors as M
     ok = True
@@ -100,7 +106,10 @@ def monitor(report, walks, prop, digests=None):
             sig.update(classify(prop, clause, detail, w, step))
             report.add_finding(Finding(prop, "mon:" + prop, sig, detail,
                                        w.script[:step + 1] + ["# impl: " + w.out[step][:400], "# " + detail]))
-    report.obligation("mon:" + prop, "monitor", ok, f"{len(walks)} implementation traces judged")
+    if label is None:
+        report.obligation("mon:" + prop, "monitor", ok, f"{len(walks)} implementation traces judged")
+    else:
+        report.count("search.walks", len(walks))
     return ok
 
 
